@@ -190,6 +190,8 @@ func c20Cases(run *core.Run) []cliCase {
 	add("bundle", []treeFile{{Path: "a.js", Data: js}, {Path: "b.js", Data: "let z = 3 ;\n"}}, nil, "-b", "-o", "out.js", "a.js", "b.js")
 	add("bundle-onto-first", []treeFile{{Path: "a.js", Data: js}, {Path: "b.js", Data: "let z = 3 ;\n"}}, nil, "-b", "-o", "a.js", "a.js", "b.js")
 	add("bundle-onto-second", []treeFile{{Path: "a.js", Data: js}, {Path: "b.js", Data: "let z = 3 ;\n"}}, nil, "-b", "-o", "b.js", "a.js", "b.js")
+	add("bundle-empty-middle-onto-last", []treeFile{{Path: "a.js", Data: js}, {Path: "empty.js", Data: ""}, {Path: "c.js", Data: "let z = 3 ;\n"}}, nil, "-b", "-o", "c.js", "a.js", "empty.js", "c.js")
+	add("bundle-empty-first-onto-last", []treeFile{{Path: "empty.js", Data: ""}, {Path: "b.js", Data: js}, {Path: "c.js", Data: "let z = 3 ;\n"}}, nil, "-b", "-o", "c.js", "empty.js", "b.js", "c.js")
 	add("bundle-css-onto-last", []treeFile{{Path: "a.css", Data: css}, {Path: "b.css", Data: "p { top : 0px }"}, {Path: "c.css", Data: "q{}"}}, nil, "-b", "-o", "c.css", "a.css", "b.css", "c.css")
 	add("sync", []treeFile{{Path: "src/a.js", Data: js}, {Path: "src/readme.txt", Data: strings.Repeat("text line\n", 9000)}, {Path: "src/sub/b.css", Data: css}, {Path: "src/sub/data.bin", Data: "\x00\x01\x02"}}, nil,
 		"-s", "-r", "-o", "out/", "src/")
@@ -611,14 +613,15 @@ func C20(run *core.Run) {
 		if run.Thorough() {
 			maxW = 6
 		}
-		for _, errno := range []string{"ENOSPC", "EIO"} {
+		for _, fault := range [][2]string{{"write", "ENOSPC"}, {"write", "EIO"}, {"read", "EIO"}} {
+			sc, errno := fault[0], fault[1]
 			for n := 1; n <= maxW; n++ {
 				eroot := fresh("err")
 				emodel := newFSModel(eroot)
 				emodel.loadDisk()
 				elog := filepath.Join(base, "err.strace")
 				var pArgs []string
-				eres := runStraceP(eroot, elog, []string{fmt.Sprintf("write:error=%s:when=%d", errno, n)}, c, &pArgs)
+				eres := runStraceP(eroot, elog, []string{fmt.Sprintf("%s:error=%s:when=%d", sc, errno, n)}, c, &pArgs)
 				if eres.err != nil {
 					run.Inconclusive()
 					run.Count("error_run_failed")
@@ -638,9 +641,9 @@ func C20(run *core.Run) {
 				if !hit {
 					break
 				}
-				run.Count("write_error_runs:" + errno)
+				run.Count(sc + "_error_runs:" + errno)
 				efinalSnap, _ := diskSnapshot(eroot)
-				replay(emodel, evs, final, "write-error-")
+				replay(emodel, evs, final, sc+"-error-")
 				if len(emodel.gaps) > 0 || !snapshotEqual(emodel.snapshot(), efinalSnap) {
 					run.Inconclusive()
 					run.Count("model_fidelity_mismatch")
@@ -652,7 +655,7 @@ func C20(run *core.Run) {
 				get := func(rel string) ([]byte, bool) { return readThrough(eroot, rel) }
 				run.Eval()
 				for _, f := range c20Invariant(get, inputs, orig, final) {
-					report(c20Violation{Case: c.Name, Args: c.Args, Input: f, Mode: "write-error-final", Boundary: fmt.Sprintf("%s at write #%d", errno, n), State: describeState(get, f, orig[f], final[f])})
+					report(c20Violation{Case: c.Name, Args: c.Args, Input: f, Mode: sc + "-error-final", Boundary: fmt.Sprintf("%s at %s #%d", errno, sc, n), State: describeState(get, f, orig[f], final[f])})
 				}
 			}
 		}
